@@ -134,3 +134,36 @@ func ZZ_C16_ViaPDI() {
 	zzCheckFlowDesc(&t, proto, d, srcIf == ie.SrcInterfaceAccess)
 	zzCover("C16.pdi.done")
 }
+
+// The translation of a rule does not depend on what was translated before: the same rule text for
+// an uplink and for a downlink PDR (in either order, or twice for the same direction), and another
+// rule in between - each result denotes its own rule for its own direction.
+func ZZ_C16_Twice() {
+	ts := zzTokenTemplates()
+	t := ts[2+nondetChoice("template", 3)]
+	toks, _, proto := zzTmplTokens(&t)
+	s := zzJoin(toks, " ")
+	zzObserve("rule", s)
+	valid := t.src.valid() && t.dst.valid() && !(t.proto > 0 && proto.val() > 255)
+	if !valid || !zzPortsValid(t.sports) || !zzPortsValid(t.dports) {
+		zzCover("C16.twice.not-a-rule")
+		return
+	}
+	g := zzGtp5g(7)
+	n := 2 + nondetChoice("translations", 2)
+	for i := 0; i < n; i++ {
+		uplink := nondetBool("uplink")
+		if i == 1 && nondetBool("another-rule-in-between") {
+			_, _ = g.newFlowDesc("permit out 6 from 192.0.2.1 443 to assigned", true)
+		}
+		attrs, err := g.newFlowDesc(s, uplink)
+		zzAssert("C16.twice.accepted", err == nil)
+		if err != nil {
+			return
+		}
+		b := make([]byte, attrs.Len())
+		attrs.Encode(b)
+		zzCheckFlowDesc(&t, proto, b, uplink)
+	}
+	zzCover("C16.twice.done")
+}
